@@ -407,6 +407,11 @@ impl HttpSession {
         // http.active_requests was already decremented by generate_access_log()
         // in h1.rs before MuxResult::Upgrade was returned to us.
 
+        // A connection that stopped reading because its buffer was full had its
+        // READABLE event cleared with bytes still in the kernel (see
+        // `parked_on_buffer_pressure`): no new edge will announce them.
+        let frontend_parked =
+            matches!(&mux.frontend, mux::Connection::H1(c) if c.parked_on_buffer_pressure);
         let (frontend_readiness, frontend_socket, mut container_frontend_timeout) =
             match mux.frontend {
                 mux::Connection::H1(mux::ConnectionH1 {
@@ -449,6 +454,8 @@ impl HttpSession {
             );
             return None;
         };
+        let backend_parked =
+            matches!(&backend, mux::Connection::H1(c) if c.parked_on_buffer_pressure);
         let (cluster_id, backend, backend_readiness, backend_socket, mut container_backend_timeout) =
             match backend {
                 mux::Connection::H1(mux::ConnectionH1 {
@@ -489,6 +496,23 @@ impl HttpSession {
 
         let ws_context = stream.context.websocket_context();
 
+        // Whatever was read behind the heads that triggered the upgrade - a
+        // server is free to start the WebSocket dialogue in the segment that
+        // carries its 101 - sits unparsed in the kawa storages. The pipe works
+        // on the underlying Checkout buffers: hand their window over, or those
+        // bytes are dropped and the pipe starts from stale indices.
+        let mut stream = stream;
+        stream
+            .back
+            .storage
+            .buffer
+            .sync(stream.back.storage.end, stream.back.storage.head);
+        stream
+            .front
+            .storage
+            .buffer
+            .sync(stream.front.storage.end, stream.front.storage.head);
+
         container_frontend_timeout.reset();
         container_backend_timeout.reset();
 
@@ -519,6 +543,13 @@ impl HttpSession {
 
         pipe.frontend_readiness.event = frontend_readiness.event;
         pipe.backend_readiness.event = backend_readiness.event;
+        // ... so the pipe, which starts with room again, is told to read them
+        if frontend_parked {
+            pipe.frontend_readiness.event.insert(Ready::READABLE);
+        }
+        if backend_parked {
+            pipe.backend_readiness.event.insert(Ready::READABLE);
+        }
         // The WebSocket pipe inherits the live backend connection, so its back
         // token must be set (back token present iff a backend is connected).
         pipe.set_back_token(back_token);
